@@ -3,12 +3,14 @@
 
    [in_dom kv u]: kv is an open knot vector (kv_ok of C02/Proofs.v) and u lies in its support.
    The partition of unity and the reference meaning of active_deriv come from the C02 theorems
-   (coq/C07/Discharge.v).  Hend (interpolation of the basis at the ends of an open knot vector)
-   is not yet a C02 theorem and is an explicit hypothesis of boundary_is_trace. *)
+   (coq/C07/Discharge.v); the interpolation of the basis at both ends of an open knot vector is proved
+   in coq/C07/Ends.v from the end-point values of the reference (C02/Proofs_single.v).
+   [open_ends kv]: kv_ok and the first knot has multiplicity exactly p+1 (both checked by open_kv). *)
 From Coq Require Import QArith Qcanon ZArith List Arith Field.
 From Verif.lib Require Import Bsp.
 From Verif.C02 Require Import Proofs Proofs_ref.
-From Verif.C07 Require Import Model Proofs Discharge Algebra.
+From Verif.C02 Require Import Proofs_ndu Proofs_deriv Proofs_single.
+From Verif.C07 Require Import Model Proofs Discharge Ends Hess More Algebra Disk Chain.
 Import ListNotations.
 Open Scope Qc_scope.
 
@@ -189,15 +191,58 @@ Theorem bdspec_names : forall dim : nat,
   /\ ((dim < 3)%nat -> parse_bdname Front dim = None /\ parse_bdname Back dim = None).
 Proof. exact bdspec_names_l. Qed.
 
-(* boundary(): the function built from the sliced coefficients is the trace of f on the side,
-   for any position of the axis among any number of axes.  Hend: the collocation row of the
-   sliced axis at the fixed coordinate is the unit row of the first / last basis function. *)
-Theorem boundary_is_trace : forall k1 kv k2 co0 m u1 u2 a side c,
-  length u1 = length k1 -> length u2 = length k2 ->
+(* The B-spline basis of an open knot vector is interpolatory at both ends: at the first knot only
+   N_0 is non-zero (= 1), at the last knot only N_{n-1}. *)
+Theorem basis_interpolatory_at_ends : forall kv p j, kv_ok kv p -> (j < numdofs kv p)%nat ->
+  (kn kv p < kn kv (S p) -> Nref kv p j (kn kv 0) = if Nat.eqb j 0 then 1 else 0)
+  /\ Nref kv p j (lastk kv) = if Nat.eqb j (numdofs kv p - 1) then 1 else 0.
+Proof. exact (fun kv p j H Hj => conj (fun Hlt => N_at_left_end kv p j H Hlt Hj) (N_at_right_end kv p j H Hj)). Qed.
+
+(* boundary(): the function built from the sliced coefficients is the trace of f on the side
+   (coordinate of the sliced axis = end of its knot vector), for any position of the axis among any
+   number of axes, for B-spline and NURBS functions; no hypothesis beyond open knot vectors. *)
+Theorem boundary_is_trace : forall k1 kv k2 co0 m u1 u2 side c,
+  length u1 = length k1 -> length u2 = length k2 -> open_ends kv ->
   let f := mk_bsp (k1 ++ kv :: k2) co0 m in
-  forall Hend : row_equiv (dense_row kv 0 0 a) ((if Nat.eqb side 0 then 0 else kv_n kv - 1)%nat, [1]),
-  g_val (boundary f (length k1) side) (u1 ++ u2) c = g_val f (u1 ++ a :: u2) c.
-Proof. exact boundary_is_trace_l. Qed.
+  g_val (boundary f (length k1) side) (u1 ++ u2) c = g_val f (u1 ++ end_coord kv side :: u2) c.
+Proof. exact boundary_trace_l. Qed.
+
+Theorem nurbs_boundary_is_trace : forall k1 kv k2 co0 m u1 u2 side c,
+  length u1 = length k1 -> length u2 = length k2 -> open_ends kv ->
+  let f := mk_bsp (k1 ++ kv :: k2) co0 m in
+  n_val (boundary f (length k1) side) (u1 ++ u2) c = n_val f (u1 ++ end_coord kv side :: u2) c.
+Proof. exact nurbs_boundary_trace_l. Qed.
+
+(* the generic _BoundaryFunction route and the coefficient route agree on an unrestricted function *)
+Theorem boundary_routes_coincide : forall k1 kv k2 co0 m u1 u2 side c,
+  length u1 = length k1 -> length u2 = length k2 -> open_ends kv ->
+  let f := mk_bsp (k1 ++ kv :: k2) co0 m in
+  bf_grid (fun u => g_val f u c) (length k1) (bf_fixed f (length k1) side) (u1 ++ u2)
+  = g_val (boundary f (length k1) side) (u1 ++ u2) c.
+Proof. exact boundary_routes_coincide_l. Qed.
+
+(* support restriction: evaluation does not look at the support; `support` returns the override;
+   boundary(bdspec) becomes the generic _BoundaryFunction at the end of the RESTRICTED support, and in
+   both cases it is f restricted to the coordinate support[axis][side] *)
+Theorem support_restriction_spec : forall ov k1 kv k2 co0 m u1 u2 side c,
+  length u1 = length k1 -> length u2 = length k2 -> (ov = None -> open_ends kv) ->
+  let f := mk_bsp (k1 ++ kv :: k2) co0 m in
+  support_of ov f = match ov with Some s => s | None => map kv_support (k1 ++ kv :: k2) end
+  /\ r_boundary_val ov f (length k1) side (u1 ++ u2) c
+     = g_val f (u1 ++ r_fixed ov f (length k1) side :: u2) c.
+Proof. exact restricted_boundary_is_trace_l. Qed.
+
+(* _BoundaryFunction of ANY function of an xyz coordinate list (any coordinate and value types:
+   splines, NURBS, callables, compositions): both routes evaluate val at the point whose coordinate number
+   len(x)-axis is the fixed one and whose remaining coordinates are x in order *)
+Theorem boundary_function_is_trace : forall (A B : Type) (val : list A -> B) axis (fixed d : A) xs,
+  (axis <= length xs)%nat ->
+  let k := (length xs - axis)%nat in
+  let full := insert_at k fixed xs in
+  bf_call val axis fixed xs = val full
+  /\ bf_grid (fun u => val (rev u)) axis fixed (rev xs) = val full
+  /\ nth k full d = fixed /\ remove_at k full = xs /\ length full = S (length xs).
+Proof. exact boundary_function_is_trace_l. Qed.
 
 (* _BoundaryFunction: __call__ (fixed coordinate inserted at len(x)-axis of the xyz list) and
    grid_eval (axis inserted at position axis of the zyx list) evaluate f at the same point *)
@@ -210,6 +255,55 @@ Theorem boundary_function_drops_normal : forall f us c axis, (axis < sdim f)%nat
   length (g_jac f us c) = sdim f
   /\ nth (length (g_jac f us c) - axis - 1) (g_jac f us c) 0 = g_dir f 1 us (unitv (sdim f) axis) c.
 Proof. exact boundary_function_drops_normal_l. Qed.
+
+(* copy(): same knot vectors, coefficients (no second premultiplication for NURBS), values, derivatives *)
+Theorem copy_spec : forall f us c,
+  kvs (b_copy f) = kvs f /\ nc (b_copy f) = nc f /\ (forall idx, co (b_copy f) idx c = co f idx c)
+  /\ g_val (b_copy f) us c = g_val f us c /\ n_val (b_copy f) us c = n_val f us c
+  /\ g_jac (b_copy f) us c = g_jac f us c /\ g_hess (b_copy f) us c = g_hess f us c.
+Proof. exact copy_spec_l. Qed.
+
+(* cylinderize(z0, z1, support=(s0, s1)): the components of f followed by the affine map of the new
+   (z-most, last in xyz) coordinate t *)
+Theorem cylinderize_spec : forall f z0 z1 s0 s1 xs t c,
+  s0 < s1 -> s0 <= t -> t <= s1 -> Forall2 in_dom (kvs f) (rev xs) ->
+  call_val (b_cylinderize f z0 z1 s0 s1) (xs ++ [t]) c
+  = if (c <? nc f)%nat then call_val f xs c
+    else if Nat.eqb c (nc f) then z0 + (z1 - z0) * ((t - s0) / (s1 - s0))
+    else call_val (b_line z0 z1 s0 s1) [t] (c - nc f).
+Proof. exact cylinderize_spec_l. Qed.
+
+(* ComposedFunction(geo2, geo1): grid_eval is geo2 at the point geo1(x) (component i of geo1 = xyz
+   coordinate i of geo2); row c of grid_jacobian is sum_a J2[c][a] J1[a][j] with J2 the Jacobian of geo2
+   at geo1(x) and J1 that of geo1 at x -- i.e. matmul(J2, J1), also for a scalar geo2 (c = 0) *)
+Theorem composed_routes : forall f2 f1 us c,
+  Forall2 in_dom (kvs f2) (rev (comp_point f1 us)) ->
+  comp_val f2 f1 us c = Some (call_val f2 (comp_point f1 us) c)
+  /\ comp_jac f2 f1 us c
+     = Some (map (fun j => rdot 0 (g_jac f2 (rev (comp_point f1 us)) c) (fun a => nth j (g_jac f1 us a) 0))
+                 (seq 0 (sdim f1))).
+Proof. exact composed_routes_l. Qed.
+
+(* Every slot k of NurbsFunc.grid_hessian is the second derivative of N = V/W in the xyz directions
+   (a, b) = triu_indices(sdim)[k] (for sdim = 3: xx, xy, xz, yy, yz, zz): it solves the Leibniz
+   equations in which every B-spline quantity is the derivative along the knot vectors of exactly these
+   directions.  (With tril_indices the slots (a, b) of the second part would not match slot k of the
+   B-spline Hessians for sdim = 3.) *)
+Theorem nurbs_hessian_is_derivative : forall f us c k a b,
+  (k < length (triu (sdim f)))%nat -> nth k (triu (sdim f)) (0, 0)%nat = (a, b) ->
+  g_val f us (wcomp f) <> 0 ->
+  let d := sdim f in let w := wcomp f in
+  let D1 x := unitv d (d - 1 - x) in
+  let D2 := bump (bump (zerov d) (d - 1 - a)) (d - 1 - b) in
+  let W := g_val f us w in let N := n_val f us c in
+  let Na := nth a (n_jac f us c) 0 in let Nb := nth b (n_jac f us c) 0 in
+  let Nab := nth k (n_hess f us c) 0 in
+  (a <= b)%nat /\ (b < d)%nat
+  /\ Na * W + N * g_dir f 1 us (D1 a) w = g_dir f 1 us (D1 a) c
+  /\ Nb * W + N * g_dir f 1 us (D1 b) w = g_dir f 1 us (D1 b) c
+  /\ Nab * W + Na * g_dir f 1 us (D1 b) w + Nb * g_dir f 1 us (D1 a) w + N * g_dir f 2 us D2 w
+     = g_dir f 2 us D2 c.
+Proof. exact nurbs_hessian_is_derivative_l. Qed.
 
 (* ---- circular arcs, over any field ------------------------------------------------------ *)
 
@@ -267,9 +361,37 @@ Theorem quarter_annulus_axes : forall q r1 r2 x,
 Proof.
   exact (fun q r1 r2 x => proj2 (proj2 (quarter_annulus_sides F f0 f1 fadd fmul fsub fopp fdiv finv Fth q r1 r2 f0)) x).
 Qed.
+
+(* geometry.disk(r): its four sides -- gR = circular_arc(pi/2), gL = flipped gR scaled by -1,
+   gB / gT = gR / gL rotated by -pi/2, all times r -- lie on the circle of radius r: for every parameter
+   value  x^2 + y^2 = (r w)^2  for numerator (x, y) and weight w of the control nets the code builds.
+   (c, s) = (cos, sin)(pi/4), (cr, sr) = (cos, sin)(-pi/2); only the unit constraints are needed. *)
+Theorem disk_boundary_on_circle : forall c s cr sr r, c * c + s * s = f1 -> cr * cr + sr * sr = f1 ->
+  on_circle F f1 fadd fmul fsub r (disk_R F f0 f1 fadd fmul fsub c s r)
+  /\ on_circle F f1 fadd fmul fsub r (disk_L F f0 f1 fadd fmul fsub fopp c s r)
+  /\ on_circle F f1 fadd fmul fsub r (disk_B F f0 f1 fadd fmul fsub c s cr sr r)
+  /\ on_circle F f1 fadd fmul fsub r (disk_T F f0 f1 fadd fmul fsub fopp c s cr sr r).
+Proof. exact (disk_sides_on_circle F f0 f1 fadd fmul fsub fopp fdiv finv Fth). Qed.
 End ArcProps.
-(* NOT PROVED: disk_boundary_on_circle (the four sides of geometry.disk are the quarter arc, rotated /
-   reversed and negated; each is an arc_segment up to the symmetry t -> 1-t; only monitored by the tie). *)
+
+(* ---- chain rule, over any commutative ring ------------------------------------------------- *)
+Section ChainProps.
+Variable F : Type.
+Variables (f0 f1 : F) (fadd fmul fsub : F -> F -> F) (fopp : F -> F).
+Hypothesis Rth : ring_theory f0 f1 fadd fmul fsub fopp (@eq F).
+
+(* ComposedFunction.grid_jacobian = matmul(jac2, jac1): if geo1(x + e h) = y + e J1 h and
+   geo2(y + e k) = z + e J2 k to first order, the composition has first-order part J2 (J1 h), and that
+   is the action of matmul(J2, J1) on h -- for every shape (s = sdim geo1, m = dim geo1 = sdim geo2) *)
+Theorem composed_chain_rule : forall s m (J2 J1 : nat -> nat -> F) (h : nat -> F) i,
+  mv F f0 fadd fmul s (matmul F f0 fadd fmul m J2 J1) h i = mv F f0 fadd fmul m J2 (mv F f0 fadd fmul s J1 h) i.
+Proof. exact (chain_rule_l F f0 f1 fadd fmul fsub fopp Rth). Qed.
+
+(* scalar geo2 (its Jacobian is the gradient g): matmul(g[None, :], jac1)[0, :] *)
+Theorem composed_chain_rule_scalar : forall s m (g : nat -> F) (J1 : nat -> nat -> F) (h : nat -> F),
+  dot F f0 fadd fmul s (vecmat F f0 fadd fmul m g J1) h = dot F f0 fadd fmul m g (mv F f0 fadd fmul s J1 h).
+Proof. exact (chain_rule_scalar_l F f0 f1 fadd fmul fsub fopp Rth). Qed.
+End ChainProps.
 
 Print Assumptions routes_agree_val.
 Print Assumptions routes_agree_jac.
@@ -302,7 +424,19 @@ Print Assumptions outer_sum_spec.
 Print Assumptions outer_product_spec.
 Print Assumptions tensor_product_spec.
 Print Assumptions bdspec_names.
+Print Assumptions basis_interpolatory_at_ends.
 Print Assumptions boundary_is_trace.
+Print Assumptions nurbs_boundary_is_trace.
+Print Assumptions boundary_routes_coincide.
+Print Assumptions support_restriction_spec.
+Print Assumptions boundary_function_is_trace.
+Print Assumptions copy_spec.
+Print Assumptions cylinderize_spec.
+Print Assumptions composed_routes.
+Print Assumptions nurbs_hessian_is_derivative.
+Print Assumptions disk_boundary_on_circle.
+Print Assumptions composed_chain_rule.
+Print Assumptions composed_chain_rule_scalar.
 Print Assumptions boundary_function_routes.
 Print Assumptions boundary_function_drops_normal.
 Print Assumptions arc3_on_circle.
